@@ -2,12 +2,14 @@ package checks
 
 import (
 	"bytes"
+	"context"
 	"encoding/json"
 	"fmt"
 
 	"github.com/gogo/protobuf/proto"
 	pb "github.com/ipfs/boxo/ipld/unixfs/pb"
 	"github.com/ipfs/go-cid"
+	"github.com/ipfs/go-unixfsnode/file"
 	"github.com/ipld/go-ipld-prime/adl"
 	"github.com/ipld/go-ipld-prime/datamodel"
 	"github.com/ipld/go-ipld-prime/fluent/qp"
@@ -261,6 +263,15 @@ func c14Cases(quick bool) []c14Case {
 	return out
 }
 
+// foreignADL: some other library's ADL node (string kind) over a dag-pb
+// substrate. Not a dag-pb node, so reification must leave it alone.
+type foreignADL struct {
+	datamodel.Node
+	sub datamodel.Node
+}
+
+func (f foreignADL) Substrate() datamodel.Node { return f.sub }
+
 func runC14(r *core.Run) {
 	r.Rule("bounded-exhaustive over the dispatch table: every basicnode kind and a dag-pb look-alike map (identity), dag-pb nodes with Data in {absent, empty, 6 garbage strings, each of the 6 valid types incl. shard with each invalid parameter, 4 out-of-range types} x link shapes {0,1,3} x {built, decoded} x {Reify, unixfs, unixfs-preload}; real builder-written files and shards for the multi-block variants; oracle = the statement's dispatch table + Substrate() identity + byte-exact re-encoding")
 	s := store.New()
@@ -275,6 +286,16 @@ func runC14(r *core.Run) {
 		"null": datamodel.Null, "bool": basicnode.NewBool(true), "int": basicnode.NewInt(7), "float": basicnode.NewFloat(1.5),
 		"string": basicnode.NewString("s"), "bytes": basicnode.NewBytes([]byte{1, 2}), "link": basicnode.NewLink(link),
 		"list": list, "map-lookalike": lookalike,
+	}
+	// ADL nodes that are not dag-pb: a file view over a raw bytes leaf, and a
+	// foreign ADL whose substrate is a dag-pb node
+	if rawFile, err := file.NewUnixFSFile(context.Background(), basicnode.NewBytes([]byte("raw-leaf")), ls); err == nil {
+		plain["adl-file-over-raw-leaf"] = rawFile
+	} else {
+		r.InternalError("NewUnixFSFile over a bytes node: " + err.Error())
+	}
+	if pbn, err := buildPBNode(&model.PBNode{Data: fsData(1, nil), HasData: true}); err == nil {
+		plain["adl-foreign-over-dagpb"] = foreignADL{Node: basicnode.NewString("foreign"), sub: pbn}
 	}
 	for _, k := range sortedKeys(plain) {
 		for _, how := range []string{"Reify", "unixfs", "unixfs-preload"} {
@@ -383,6 +404,21 @@ func c14Real(r *core.Run, desc string, build func() (*store.Store, cid.Cid, erro
 		enc, err := encodePBNode(sub)
 		if err != nil || !bytes.Equal(enc, orig) {
 			r.Violate("real-substrate-reencode "+how, fmt.Sprintf("%s: err=%v", desc, err), replay)
+		}
+		// a reified node is not a dag-pb node: reifying it again (nested
+		// interpret-as clauses do this) returns it unchanged
+		for _, again := range []string{"Reify", "unixfs", "unixfs-preload"} {
+			var n2 datamodel.Node
+			var err2 error
+			same := false
+			if p, pv := core.Guard(func() { n2, err2 = openVia(again, ls, n); same = n2 == n }); p {
+				r.Violate("panic re-reify "+how+" "+again, fmt.Sprintf("%s: %v", desc, pv), replay)
+				continue
+			}
+			r.Transitions.Add(1)
+			if err2 != nil || !same {
+				r.Violate("non-dagpb-identity reified "+again, fmt.Sprintf("%s: %s of the node returned by %s = (%T, %v), want that node itself (%T)", desc, again, how, n2, err2, n), replay)
+			}
 		}
 	}
 }
